@@ -555,6 +555,8 @@ pub open spec fn regp_of<T: EnumI64 + WithPrivateRange>(v: Value) -> Option<Regi
         _ => None,
     }
 }
+pub broadcast axiom fn axiom_derived_clone_regp<T: EnumI64 + WithPrivateRange + Clone>(a: &RegisteredLabelWithPrivate<T>, b: RegisteredLabelWithPrivate<T>)
+    ensures #[trigger] call_ensures(<RegisteredLabelWithPrivate<T> as Clone>::clone, (a,), b) ==> b == *a;
 pub open spec fn nonempty_bytes(v: Value) -> bool { v matches Value::Bytes(b) && b@.len() > 0 }
 pub open spec fn wf_regp<T: EnumI64 + WithPrivateRange>(l: RegisteredLabelWithPrivate<T>) -> bool {
     l matches RegisteredLabelWithPrivate::PrivateUse(i) ==> (T::spec_from_i64(i) is None && T::spec_is_private(i))
